@@ -3,7 +3,8 @@
    rules (every id written refers to an existing non-empty entry) are judged by tools/c11.py's independent validator on
    the implementation's output, which the pipeline model reproduces byte for byte. *)
 From Coq Require Import String NArith List Bool.
-From RC Require Import lib.Result lib.Bytes model.Layout model.RichCodec proofs.C11_proofs gen.GenLayouts gen.GenConsts.
+From RC Require Import lib.Result lib.Bytes model.Layout model.ChkIo model.RichCodec model.RichIo proofs.C11_proofs proofs.Save_sizes
+  gen.GenLayouts gen.GenConsts.
 Import ListNotations.
 
 (* TRIG: whatever triggers are encoded (0..n conditions / actions, any arguments), if the section is emitted at all it is
@@ -38,3 +39,25 @@ Theorem C11_wrong_count_raises :
   forall n l vs, length vs <> n -> encode_l (Arr n true l) (VList vs) = Raise StructError.
 Proof. exact strict_array_refuses_wrong_count. Qed.
 Print Assumptions C11_wrong_count_raises.
+
+(* THE WHOLE MAP.  Whatever rich content is saved (any triggers, any numbers, any indices; sound metadata or not): if
+   RichChkIo.encode_chk returns at all, EVERY table section in its output - the re-encoded MRGN, TRIG, UNIS, UNIx, UPRP,
+   SWNM, WAV, the recomputed UPUS, and the SWNM / UPRP / UPUS appended when the map had none - encodes to exactly the size
+   the format mandates (5100, k*2400, 4048, 4168, 1280, 1024, 2048, 64), or its binary encoder raises.  "Rich form" = every
+   section that has a rich model is held as that model (what decode_chk returns and the editors keep). *)
+Theorem C11_every_saved_table_section_has_its_mandated_size :
+  forall wd r d, forallb rich_form_sec r = true -> save wd r = Ok d -> Forall payload_ok d.
+Proof. exact save_emits_mandated_sizes. Qed.
+Print Assumptions C11_every_saved_table_section_has_its_mandated_size.
+
+(* the premise holds for whatever decode_chk returns, and the trigger editor keeps it *)
+Theorem C11_loaded_maps_are_in_rich_form :
+  forall d r, load d = Ok r -> forallb rich_form_sec r = true.
+Proof. exact loaded_maps_are_in_rich_form. Qed.
+Print Assumptions C11_loaded_maps_are_in_rich_form.
+
+(* generic: a layout written by whole-array struct.pack calls only (UNIS, UNIx, UPUS, SWNM, WAV) has its size for ANY value *)
+Theorem C11_strict_layouts_have_their_size_for_any_value :
+  forall l v bs s, all_strict l = true -> size_l l = Some s -> encode_l l v = Ok bs -> length bs = s.
+Proof. exact strict_encode_size. Qed.
+Print Assumptions C11_strict_layouts_have_their_size_for_any_value.
